@@ -404,14 +404,14 @@ func run(ctx *core.Ctx) error {
 	ctx.Ev.Rule = "a case is one write program executed on pdf.Writer under one configuration, reopened with pdf.Reader; non-trivial = the file closes and holds at least two program objects; distinct = distinct (program, configuration)"
 	ctx.Ev.Assume("value ids are recognised by structural equality of what the Reader returns with the concrete values written (the projection function of the harness)")
 	ctx.Ev.Assume("filtered streams on non-seekable sinks are not replayed against the model (the filter's internal buffering decides when the 1024-byte threshold is crossed); C06 covers them")
-	kinds := []string{"q"} // MaxOps 4, two value ids
+	kinds := []string{"r", "q"} // MaxOps 3 with two value ids, MaxOps 4 with one
 	if ctx.Thorough() {
-		kinds = []string{"q", "t"} // + MaxOps 5 with one value id
+		kinds = []string{"u", "t"} // MaxOps 4 with two value ids, MaxOps 5 with one
 	}
 	for _, kind := range kinds {
 		for _, f := range Families {
 			if _, err := ctx.MustHold(core.TLCOpts{Dir: "file", Module: "PdfWriter", Cfg: "MC_PdfWriter_" + kind + "_" + f.String() + ".cfg", Workers: 12,
-				Timeout: ctx.Dur(8, 30), Constants: fmt.Sprintf("MaxNum=3, MaxMembers=2, OBJSTM=%v, SEEKABLE=%v; q: Vals={a,b}, MaxOps=4; t: Vals={a}, MaxOps=5", f.ObjStm, f.Seekable)}); err != nil {
+				Timeout: ctx.Dur(8, 30), Constants: fmt.Sprintf("MaxNum=3, MaxMembers=2, OBJSTM=%v, SEEKABLE=%v; r: Vals={a,b}, MaxOps=3; q: Vals={a}, MaxOps=4; u: Vals={a,b}, MaxOps=4; t: Vals={a}, MaxOps=5", f.ObjStm, f.Seekable)}); err != nil {
 				return err
 			}
 		}
